@@ -822,6 +822,64 @@ impl C14 {
     }
 }
 
+impl C14 {
+    /// the instruction budget is not refunded by stepping backwards: with recording on, any interleaving of next() and
+    /// rnext() executes at most N instructions forward (own counter) after set_insn_limit(N)
+    fn rewind_budget_case(&mut self, idx: u64, obs: &mut Obs) {
+        let mut rng = Rng::for_case("C14rewind", self.seed, idx);
+        let (src, kind) = self.program(idx, &mut rng, obs);
+        let mut xs = self.boot.clone();
+        let _ = xs.set_stack_limit(Some(20_000));
+        xs.set_recording_enabled(true);
+        if !matches!(catch(|| xs.compile(&src)), Ok(Ok(()))) {
+            obs.skipped += 1;
+            obs.count("skipped:does-not-build");
+            return;
+        }
+        let n = *rng.pick(&[0usize, 1, 2, 3, 5, 8, 13, 40]);
+        let _ = xs.set_insn_limit(Some(n));
+        let mut forward = 0usize;
+        let mut back = 0usize;
+        let mut trail = String::new();
+        for _ in 0..6 * n + 30 {
+            if !xs.is_running() {
+                break;
+            }
+            if rng.chance(2, 5) {
+                match catch(|| xs.rnext()) {
+                    Err((m, l)) => return self.v(obs, idx, "rewind:panic", src.clone(), format!("panic {} at {}", m, normalise_loc(&l))),
+                    _ => {
+                        back += 1;
+                        trail.push('<');
+                    }
+                }
+            } else {
+                match catch(|| xs.next()) {
+                    Err((m, l)) => return self.v(obs, idx, "rewind:panic", src.clone(), format!("panic {} at {}", m, normalise_loc(&l))),
+                    Ok(Ok(())) => {
+                        forward += 1;
+                        trail.push('>');
+                    }
+                    Ok(Err(e)) => {
+                        trail.push('x');
+                        if !is_limit(&e, "insn") {
+                            // the program's own failure: stepping on is outside the statement
+                            break;
+                        }
+                    }
+                }
+            }
+            if forward > n {
+                return self.v(obs, idx, "rewind:more-than-N-executed", src.clone(), format!("instruction limit {}: {} instructions executed forward (own count) in the walk {} ('>' step, '<' reverse step, 'x' refused)", n, forward, trail));
+            }
+        }
+        obs.count("rewind:walks");
+        obs.add("rewind:reverse_steps", back as u64);
+        obs.add("evaluations", 1);
+        obs.shape(fnv1a(format!("rewind:{}:{}:{}", kind, n, src).as_bytes()));
+    }
+}
+
 impl Monitor for C14 {
     fn run_case(&mut self, idx: u64, obs: &mut Obs) {
         match idx % 6 {
@@ -829,7 +887,13 @@ impl Monitor for C14 {
             1 => self.stack_case(idx, obs),
             2 => self.stack_shift_case(idx, obs),
             3 => self.heap_case(idx, obs),
-            4 => self.budget_case(idx, obs),
+            4 => {
+                if (idx / 6) % 3 == 0 {
+                    self.rewind_budget_case(idx, obs)
+                } else {
+                    self.budget_case(idx, obs)
+                }
+            }
             _ => self.session_case(idx, obs),
         }
     }
